@@ -1,6 +1,7 @@
 /- Line-protocol driver: one JSON case per line in, one JSON line out. Unverified glue; it only
    evaluates model definitions. -/
 import PjrpcModel.Driver.SuiteMsg
+import PjrpcModel.Driver.SuiteDispatch
 open Pjrpc.Driver
 
 def handle (line : String) : String :=
@@ -10,6 +11,7 @@ def handle (line : String) : String :=
     let r : M J := do
       match (← str (← fld c "suite")) with
       | "msg" => suiteMsg c
+      | "dispatch" => suiteDispatch c
       | s => throw s!"unknown suite {s}"
     match r with
     | .ok j => j.compress
